@@ -94,9 +94,39 @@ Theorem C16E_routing_init_request : forall E (ep : endpoint E) h my peer m c ep0
   create E ep false (be_encode 8 (Z.to_N (h_spi_i h))) c my peer = Some (ep0, cid, s0) ->
   cid = next_cid E ep /\ table E ep0 = table E ep ++ [(cid, s0)]
   /\ dispatch E ep (Dg h my peer (Some m))
-     = handle E (routed E (with_table E ep0 (Endpoint.replace E (table E ep0) cid (arm E ep0 s0))) cid) cid (arm E ep0 s0) m.
+     = handle_fresh E (routed E (with_table E ep0 (Endpoint.replace E (table E ep0) cid (arm E ep0 s0))) cid) cid (arm E ep0 s0) m.
 Proof. exact dispatch_init_request. Qed.
 Print Assumptions C16E_routing_init_request.
+
+(** [handle_fresh]: as [handle], but a fresh IkeSa that is still INITIAL after process_message (it ignored the
+    request) is removed again at once (fix 73b0c79 of /repo) *)
+Theorem C16E_def_handle_fresh : forall E (ep : endpoint E) cid (s : esa E) m,
+  handle_fresh E ep cid s m =
+  if Z.eqb (state (hdl_iface E) (snd (leave E ep (fst (process_message (hdl_iface E) (enter E ep s) m (ep_now E ep))))))
+           ST_INITIAL
+  then send E (with_table E (fst (leave E ep (fst (process_message (hdl_iface E) (enter E ep s) m (ep_now E ep)))))
+                 (remove_cid E (table E (fst (leave E ep (fst (process_message (hdl_iface E) (enter E ep s) m (ep_now E ep)))))) cid))
+              (snd (process_message (hdl_iface E) (enter E ep s) m (ep_now E ep)))
+  else handle E ep cid s m.
+Proof. exact handle_fresh_def. Qed.
+Print Assumptions C16E_def_handle_fresh.
+
+(** a freshly created responder IkeSa never stays in the table in ST_INITIAL: if it ignored the IKE_SA_INIT request
+    (it is still INITIAL after process_message) the table is the old table again, no kernel operation was issued,
+    and what is sent is whatever process_message returned *)
+Theorem C16E_ignored_init_request_leaves_nothing :
+  forall E (ep : endpoint E) h my peer (m : pmsg body) c ep0 cid (s0 : esa E),
+  (forall x, In x (map fst (table E ep)) -> (x < next_cid E ep)%nat) ->
+  dispatch_is_init_request (h_exch h) (negb (h_resp h)) = true -> find_conf E ep my peer = Some c ->
+  create E ep false (be_encode 8 (Z.to_N (h_spi_i h))) c my peer = Some (ep0, cid, s0) ->
+  let ep1 := routed E (with_table E ep0 (Endpoint.replace E (table E ep0) cid (arm E ep0 s0))) cid in
+  let r := process_message (hdl_iface E) (enter E ep1 (arm E ep0 s0)) m (ep_now E ep1) in
+  state (hdl_iface E) (fst r) = ST_INITIAL ->
+  table E (dispatch E ep (Dg h my peer (Some m))) = table E ep
+  /\ ep_kops E (dispatch E ep (Dg h my peer (Some m))) = ep_kops E ep
+  /\ ep_sent E (dispatch E ep (Dg h my peer (Some m))) = ep_sent E (send E ep (snd r)).
+Proof. exact ignored_init_request_leaves_nothing. Qed.
+Print Assumptions C16E_ignored_init_request_leaves_nothing.
 
 Theorem C16E_def_handle : forall E (ep : endpoint E) cid (s : esa E) m,
   handle E ep cid s m =
